@@ -12,7 +12,7 @@ import json,sys
 m=json.load(open('$d/meta.json'))
 print(' '.join(sorted({c.split(':')[0] for c in m.get('caught_by',[])})))")
   [ -z "$ids" ] && { echo "$name N-A"; continue; }
-  git -C "$REPO" checkout -q -- . ; git -C "$REPO" apply "$d/patch.diff" || { echo "$name APPLY-FAILED"; continue; }
+  git -C "$REPO" checkout -q -- . ; git -C "$REPO" apply "$PWD/$d/patch.diff" || { echo "$name APPLY-FAILED"; continue; }
   res=""
   for id in $ids; do
     out=$(./check "$id" quick 2>/dev/null); code=$?
